@@ -260,6 +260,9 @@ def _file(f, p, v, env):
     isabs = posixpath.isabs(s) or s.startswith("$")  # "$FX/..." placeholders stand for absolute paths
     if not isabs and startdir:
         s = posixpath.normpath(posixpath.join(startdir, s))
+        if not (posixpath.isabs(s) or s.startswith("$")):
+            # a relative start directory is resolved against the working directory: the result is absolute
+            s = posixpath.normpath(posixpath.join(env.get("cwd", "/nonexistent-cwd"), s))
         look = s
     elif isabs:
         look = posixpath.normpath(s)
